@@ -126,6 +126,9 @@ class Parameter:
         # proposals falling outside the boundary are reflected inside
         # if the parameter is also non-negative, the lower limit cannot be below zero
         lower = max(self.lower, 0.0) if self._non_negative else self.lower
+        # a proposal already inside the limits is returned as it is
+        if lower <= prop <= self.upper:
+            return prop
         width = self.upper - lower
         d = prop - lower
         n = (d // width) % 2
